@@ -228,7 +228,7 @@ func verifChunkRows(ck executor.Chunk, refs []influxql.VarRef) []VerifAggRow {
 			case influxql.Boolean:
 				cell.B = col.BooleanValue(j)
 			case influxql.String, influxql.Tag:
-				cell.S = col.StringValue(j)
+				cell.S = strings.Clone(col.StringValue(j)) // StringValue aliases the chunk's (pooled) buffer
 			}
 		}
 	}
